@@ -68,7 +68,8 @@ def _role_view(prog, key, tup):
 
 
 def check(ctx):
-    prog = ctx.prog
+    # every helper is analysed in the all-inlined view: what it does, not how the work is split into functions
+    prog = ctx.prog.view("all")
     # R-1 sibling agreement
     for fam, (creates, verifies) in sorted(FAMILIES.items()):
         views = {}
@@ -97,37 +98,34 @@ def check(ctx):
         fallible = h["fallible"]
         produced = ("tryok", call_t) if fallible else call_t
         problems = []
+        S0 = ("field", ("param", 0), "0")
+        effs = pv.effects()
         if h["kind"] == "create-sig":
-            effs = [e for e in pv.effects() if e["kind"] == "assign"]
-            ok_store = len(effs) == 1 and effs[0]["place"] == ("field", ("param", 1), "signature") and effs[0]["value"] == produced
+            st = [e for e in effs if e["kind"] == "assign"]
+            ok_store = len(st) == 1 and st[0]["place"] == ("field", ("param", 1), "signature") and st[0]["value"] == produced
             if not ok_store:
-                problems.append("the closure result is not stored into sig.signature: %s" % [(show(e["place"]), show(e["value"])[:60]) for e in effs])
-            fin = [o for o in outs if o["kind"] in ("ok", "call")]
-            tgt = None
-            for o in fin:
-                t = o["inner"] if o["kind"] == "ok" else o["term"]
-                if is_call(t, "sign::CoseSignBuilder::add_signature") and t[2] == (("param", 0), ("param", 1)):
-                    tgt = o
-            if tgt is None:
-                problems.append("the completed signature is not added with add_signature(self, sig)")
-            elif effs and not f.cfg.dominates(effs[0]["bb"], tgt["bb"]):
+                problems.append("the closure result is not stored into sig.signature: %s" % [(show(e["place"]), show(e["value"])[:60]) for e in st])
+            adds = [e for e in effs if e["kind"] == "call" and e["callee"] == "alloc::vec::Vec::<T, A>::push"
+                    and e["place"] == ("field", S0, "signatures") and e["args"][1] == ("param", 1)]
+            rest = [e for e in effs if e not in st and e not in adds]
+            if len(adds) != 1:
+                problems.append("the completed signature is not added to self.signatures exactly once")
+            elif st and not f.cfg.dominates(st[0]["bb"], adds[0]["bb"]):
                 problems.append("sig is added before its signature is stored")
+            if rest:
+                problems.append("other effects: %s" % [(e.get("callee") or "assign", show(e["place"])[:50]) for e in rest])
         else:
-            setter = {"signature": "signature", "tag": "tag", "ciphertext": "ciphertext"}[h["stores"]]
-            fin = None
-            for o in outs:
-                t = o["inner"] if o["kind"] == "ok" else o["term"]
-                if is_call(t) and t[1].endswith("Builder::" + setter) and t[2][0] == ("param", 0):
-                    fin = t
-            if fin is None or fin[2][1] != produced:
-                problems.append("the closure result is not stored with self.%s(..): %s" % (setter, show(fin)[:100] if fin else None))
-            else:
-                sf = prog.fn(fin[1])
-                seff = Prov(sf).effects()
-                want_val = ("param", 1) if setter != "ciphertext" else ("aggr", "core::option::Option", "Some", (("0", ("param", 1)),))
-                if not (len(seff) == 1 and seff[0]["kind"] == "assign" and seff[0]["place"] == ("field", ("field", ("param", 0), "0"), setter)
-                        and seff[0]["value"] == want_val):
-                    problems.append("%s does not set exactly the `%s` field" % (fin[1], setter))
+            fld = h["stores"]
+            want_val = produced if fld != "ciphertext" else ("aggr", "core::option::Option", "Some", (("0", produced),))
+            st = [e for e in effs if e["kind"] == "assign" and e["place"] == ("field", S0, fld)]
+            rest = [e for e in effs if e not in st]
+            if len(st) != 1 or st[0]["value"] != want_val:
+                problems.append("the closure result is not stored in self.%s: %s" % (fld, [(show(e["place"]), show(e["value"])[:80]) for e in effs if e["kind"] == "assign"]))
+            if rest:
+                problems.append("other effects: %s" % [(e.get("callee") or "assign", show(e["place"])[:50]) for e in rest])
+        rets = [o for o in outs if o["kind"] in ("ok", "value")]
+        if not rets or any((o["inner"] if o["kind"] == "ok" else o["term"]) != ("param", 0) for o in rets):
+            problems.append("does not return the builder itself")
         ctx.ob("R-2", "stores-result:%s" % key, not problems,
                "%s stores the caller's function result in `%s`, the field the verify/decrypt helper hands over" % (key, h["stores"]),
                where=f.where(bb), detail={"problems": problems})
